@@ -1,5 +1,5 @@
 # replay of a bounded stand-in violation (C06): re-run native/c06_measure.py
 import sys
-print('fock(pure=True) measure_fock([2, 0, 1]): RNG picked photon numbers {0: np.int64(0), 1: np.int64(0), 2: np.int64(1)} but the reported outcome is [0, 1, 0] for modes [2, 0, 1]')
+print('post-selected heterodyne on mode 1 of 2: gaussian and bosonic conditional states differ (max 0.0406)')
 print('REPLAY-VIOLATION')
 sys.exit(1)
